@@ -26,11 +26,15 @@ REQUIRED_THEOREMS = [
     "C17_mean_circular_on_circle", "C17_windowed_circular_on_circle", "C17_move_target_is_source", "C17_moved_from_out_of_scope",
 ]
 RULE = ("operation sequences on one object; kind est: ops from {extract/2, extract/5, setMethod(12 methods), "
-        "setMobileAverageWindowSize(w in {-1,0,1,2,3,5,29,30,31,100} and 2..8), clear}, particle sets N in 1..20 with "
-        "linear 0..3 + circular 0..2 rows, normalised log-weights with a unique maximum, likelihoods / transition "
-        "matrices (zeros included) with a unique best map score; kind hb: ops from {add, set(w), dec, inc, clear}; "
+        "setMobileAverageWindowSize(w in {-1,0,1,2,3,5,29,30,31,100} and 2..8), clear, move-construct, move-assign}, particle "
+        "sets N in 1..20 (8% of the calls 21..200) with linear 0..3 + circular 0..2 rows (15% up to 8 + 5); per-case flavour: plain "
+        "(normalised log-weights, unique maximum), zeros (exact zero weights = -inf, also all previous weights -inf), ties (exact ties "
+        "in weights / map scores), unnormalised (outside the premise: correspondence and the un-normalised clauses), cancel (pairs of "
+        "opposite phasors, relative resultant down to 1e-7, tolerances scaled by 1/resultant, skipped and counted above 1e-3), single "
+        "(one stored estimate at 7.0 / -9.5 rad); likelihoods / transition matrices with zeros; kind hb: ops from {add, set(w), dec, "
+        "inc, clear, move-construct, move-assign}; "
         "both tiers start with a hand-picked corpus (inputs of past failures, saturation, unsigned wrap, shared history) and end "
-        "with exact-tie cases for plain mode/map (compared relationally); "
+        "with exact-tie cases for plain mode/map (compared by index: first maximiser); "
         "quick: random sequences of length <= 12 (+ a few long fills), thorough: additionally exhaustive sequences of "
         "length <= 3 after prefills {0,1,3,6,31} and random sequences of length <= 60; non-trivial = a sequence with a "
         "windowed extract or a window change on a non-empty buffer; distinct by (kind, lin, circ, methods used, "
@@ -874,6 +878,9 @@ LEVEL_TEXT = ("Proof: HistoryBuffer is modelled as a list state machine and Esti
               "an argmax of the coded log-score (= log of likelihood x weight-averaged transition density up to the epsilon terms), and every windowed "
               "estimate is the convex combination with positive, age-non-increasing weights summing to one (equal for the simple variant). "
               "The model is tied to the code by running the extracted model and the real objects on the same operation sequences.")
-LEVEL_NOTE = ("Trusted: Coq kernel + the 4 axioms of Reals for the real-valued statements, extraction + float driver, harness, numpy oracle, tolerances; "
+LEVEL_NOTE = ("Circular outputs are in (-pi, pi] except when exactly one particle / one stored estimate is averaged: directional_mean then returns "
+              "the angle as it is (congruent mod 2 pi, C17_mean_circular_on_circle / C17_windowed_circular_on_circle). Zero weights (-inf) and "
+              "un-normalised weights are covered by correspondence and oracle only; the moved-from object of a move is out of scope. "
+              "Trusted: Coq kernel + the 4 axioms of Reals for the real-valued statements, extraction + float driver, harness, numpy oracle, tolerances; "
               "rounding not modelled; tie to the code sampled. 'most recent min(calls, window) calls' holds as stated only while the window is not changed; "
               "across window changes the exact count (stored' = min(stored+1, window), min(stored, window') on a change) is what is proved and checked.")
